@@ -57,8 +57,8 @@ def one(job):
         seg_ranges = {0: [], 1: []}
         pos = {0: 0, 1: 0}
         for k, (_, _, d, _, payload) in enumerate(conn.pkts):
-            seg_ranges[d].append((pos[d], pos[d] + len(payload), in_ts[k]))
-            pos[d] += len(payload)
+            a = conn.offset(k)                 # from the sequence number: segments may be duplicated / displaced
+            seg_ranges[d].append((a, a + len(payload), in_ts[k]))
         plain_pos = {0: 0, 1: 0}
         rec_of = {0: [], 1: []}     # (plaintext start, end, carrier timestamps)
         for d, off, ln, pt in sc.app_records:
@@ -83,6 +83,12 @@ def one(job):
                 first_rec_ts = owner[0][2]
         if cv["segments"] and not all(t == cv["hs_ts"][0] for t in cv["hs_ts"]):
             fails.append(f"handshake-ts-inconsistent:{sc.v}")
+        # "the first exported record": the first application record handed to the builder; a zero-length record
+        # (e.g. the empty CBC record of the 1/n-1 split) exports no packet of its own but is still the first one
+        if sc.app_records:
+            d0, off0, ln0, _ = sc.app_records[0]
+            first_any = [t for a, b, t in seg_ranges[d0] if a < off0 + ln0 and b > off0]
+            first_rec_ts = (first_rec_ts or []) + first_any
         if cv["segments"] and first_rec_ts is not None and cv["hs_ts"][0] not in first_rec_ts:
             fails.append(f"handshake-ts-mismatch:{sc.v}: handshake at {cv['hs_ts'][0]}, first exported record carried at {first_rec_ts}")
     for j, q in enumerate(mx.quic):
